@@ -656,8 +656,9 @@ def cases(tier):
             # ids that are numbers, among them 0 (list positions), and ''
             yield {'fam': 'click', 'shape': sh, 'ids': 'int', 'literal': 3}
             yield {'fam': 'click', 'shape': sh, 'ids': 'falsy', 'literal': 3}
-        if nodes <= 6:
-            # node ids that are unique among siblings only
+        if nodes <= maxnodes:
+            # node ids that are unique among siblings only (from 7 nodes on
+            # two inner nodes of the same depth and id have children)
             yield {'fam': 'click', 'shape': sh, 'ids': 'short-dup',
                    'literal': 3}
         if nodes <= 6:
